@@ -16,6 +16,7 @@ func init() {
 			"R05.4 a single-segment parameter ends only at '/' or the termination byte; R05.5 backtracking tries, for every recorded candidate node, the single parameter and then the wildcard, and the candidate stack is never truncated during the literal walk; parameter names are filled from the matched node. " +
 			"R05.3 also: the serve mux looks up r.Method and the decoded r.URL.Path. " +
 			"R05.5 also: the any-parameter flag is asked at every position, a set flag registers the position, the backtracking stack starts empty; R05.2 also: every child's CHECK slot is claimed in one loop before any subtree is built, and the record a parameter case strips belongs to that child's own group. " +
+			"R05.2 also: every record is filed, the separator scan is used for single parameters only, and a failed subtree ends the build. " +
 			"NOT decided: soundness/completeness of matching and literal-over-parameter preference as such (value-level).",
 		Assumptions: []string{"trie-shape invariants established by doubleArray.build as stated in the invariant table"},
 		Run:         runC05,
